@@ -41,7 +41,7 @@ def run_one(args):
         env = dict(os.environ, CDD_REPO=d, VERIF_EVIDENCE_DIR=ev, VERIF_REPLAY_DIR=ev, VERIF_NO_BOUNDED="1", VERIF_NO_CONTROLS="1", VERIF_PROCS="2")
         r = subprocess.run([os.path.join(common.VERIF, "check"), prop, "--tier", "quick"], env=env, capture_output=True, text=True, timeout=1200)
         out = r.stdout + r.stderr
-        viol = re.findall(r"VIOLATION property=%s .*?obligation=(\S+)" % prop, out)
+        viol = [m[0] for m in re.findall(r"^VIOLATION property=%s .*?obligation=(.*?)( no-failing-input-found)?$" % prop, out, re.M)]
         undec = re.findall(r"UNDECIDED property=%s obligation=(\S+)" % prop, out)
         exp = ctl.get("expect")
         killed = r.returncode == 1 and bool(viol) and (exp is None or any(re.search(exp, v) for v in viol))
